@@ -19,16 +19,32 @@ ASSUME = [
     "between the hand-over of a connection to an accept-into peer (SYN arrival) and the accept handler, the peer's state is not checked by the monitor (the trace does not show the hand-over instant)",
 ]
 
+from specs import udp as udpspec
+udp_gen = importlib.import_module("udp_gen")
+
+# the clauses of the datagram monitor that are C11's "datagrams addressed to an endpoint never reach a
+# socket that no longer holds that binding" (release by close / re-open / rebind, transfer by move)
+DELIVERY = ("after-close", "right-socket")
+
 def spec_c11(impl, scn):
-    return spec.check(impl, scn)
+    fails = spec.check(impl, scn)
+    try:
+        fails += [f for f in udpspec.check(impl, scn) if f[0] in DELIVERY]
+    except Exception:
+        pass
+    return fails
+
+def gen_c11(seed, tier):
+    # + datagrams in flight towards a socket that is closed / re-opened / rebound / moved meanwhile
+    return gen.generate(seed, tier) + udp_gen.generate(seed + 7, tier, "reopen", 40 if tier == "quick" else 1500)
 
 def nontrivial(impl):
     st = spec.stats(impl)
     return st["binds"] >= 3 and (st["bind_errors"] >= 1 or st["rebind_after_release"] >= 1)
 
 CHECK = ScenarioCheck(
-    "C11", ["SimVerif.Props.C11"], "kernel", gen.generate, spec_c11, nontrivial,
-    "net_gen family `reg` (random open / bind / listen / connect / close / re-open / move / destroy over sockets, acceptors and UDP sockets) plus boundary-directed histories (gen/reg_gen.py): ports 1 / 80 / 1023 / 1024 / 65534 / 65535; port 0 up to 25 times with the counter's next candidates bound explicitly beforehand, TCP / UDP interleaved; one endpoint bound by a TCP socket, an acceptor and a UDP socket; single-, multi-homed (wildcard = first address, positional), dual-stack and v6-only nodes; wrong family both ways, wildcard of a missing family, foreign address; double bind; release by close / close0 / destroy / re-open / move+close then rebind; moved-from object re-opened and bound, chains of moves; acceptor lifecycles over several run()s (accepted socket closed / destroyed / re-opened / moved then connect again; acceptor closed / destroyed / re-opened at top level or at a later virtual time then connect -> refused, a NEW acceptor on the endpoint while old accepted sockets live on and are closed afterwards); connects from closed / open / explicitly bound sockets incl. wrong family and missing family; UDP send_to from unbound sockets. Checked on every implementation trace by a reference registry (clauses in specs/registry.py); non-trivial = >= 3 bind results with >= 1 error or >= 1 bind after a close / destroy / move; distinct = distinct implementation trace",
+    "C11", ["SimVerif.Props.C11"], "kernel", gen_c11, spec_c11, nontrivial,
+    "net_gen family `reg` (random open / bind / listen / connect / close / re-open / move / destroy over sockets, acceptors and UDP sockets) plus boundary-directed histories (gen/reg_gen.py): ports 1 / 80 / 1023 / 1024 / 65534 / 65535; port 0 up to 25 times with the counter's next candidates bound explicitly beforehand, TCP / UDP interleaved; one endpoint bound by a TCP socket, an acceptor and a UDP socket; single-, multi-homed (wildcard = first address, positional), dual-stack and v6-only nodes; wrong family both ways, wildcard of a missing family, foreign address; double bind; release by close / close0 / destroy / re-open / move+close then rebind; moved-from object re-opened and bound, chains of moves; acceptor lifecycles over several run()s (accepted socket closed / destroyed / re-opened / moved then connect again; acceptor closed / destroyed / re-opened at top level or at a later virtual time then connect -> refused, a NEW acceptor on the endpoint while old accepted sockets live on and are closed afterwards); connects from closed / open / explicitly bound sockets incl. wrong family and missing family; UDP send_to from unbound sockets; datagrams in flight towards a UDP socket that is closed, re-opened (also open() on the open socket), bound to another port or moved before they arrive (gen/udp_gen.py family `reopen`; delivery clauses `after-close` / `right-socket` of specs/udp.py). Checked on every implementation trace by a reference registry (clauses in specs/registry.py); non-trivial = >= 3 bind results with >= 1 error or >= 1 bind after a close / destroy / move; distinct = distinct implementation trace",
     TRUSTED, ASSUME, spec_scn=True)
 
 def run(tier, seed, replay):
